@@ -4,6 +4,7 @@ Statements are fixed; re-exported by `Props.lean`.
 -/
 import StirVerif.C01.ProofsTrans
 import StirVerif.C01.ProofsAxial
+import Mathlib.Data.List.Nodup
 
 namespace StirVerif.C01
 
@@ -26,31 +27,467 @@ def DetPair.valid (g : Geom) (p : DetPair) : Prop :=
 /-- exchange the two detection positions and negate the TOF index -/
 def DetPair.swapped (p : DetPair) : DetPair := ⟨p.d2, p.r2, p.d1, p.r1, -p.t⟩
 
+/-! ## helper lemmas -/
+
+
+theorem ediv_eq_of_bounds {x d q : Int} (hd : 0 < d) (h1 : d * q ≤ x) (h2 : x < d * q + d) : x / d = q :=
+  ((Int.ediv_emod_unique (r := x - d * q) hd).2 ⟨by omega, by omega, by omega⟩).1
+
+/-- characterisation of `roundDiv` for odd mashing factors -/
+theorem roundDiv_eq_iff (t M q : Int) (hM : 0 < M) (hodd : M % 2 = 1) :
+    roundDiv t M = q ↔ (q * M - M.tdiv 2 ≤ t ∧ t ≤ q * M + M.tdiv 2) := by
+  have hh : M.tdiv 2 = M / 2 := Int.tdiv_eq_ediv_of_nonneg (by omega)
+  rw [hh]
+  have key : ∀ q x : Int, 0 ≤ x → ((2 * x + M).tdiv (2 * M) = q ↔ (q * M - M / 2 ≤ x ∧ x ≤ q * M + M / 2)) := by
+    intro q x hx
+    rw [Int.tdiv_eq_ediv_of_nonneg (by omega)]
+    have e : (2 * M) * q = 2 * (q * M) := by rw [Int.mul_assoc, Int.mul_comm M q]
+    constructor
+    · intro hq
+      have a1 := Int.mul_ediv_self_le (x := 2 * x + M) (k := 2 * M) (by omega)
+      have a2 := Int.lt_mul_ediv_self_add (x := 2 * x + M) (k := 2 * M) (by omega)
+      rw [hq, e] at a1 a2
+      omega
+    · intro ⟨h1, h2⟩
+      apply ediv_eq_of_bounds (by omega) <;> rw [e] <;> omega
+  unfold roundDiv
+  split
+  · exact key q t (by omega)
+  · have hk := key (-q) (-t) (by omega)
+    rw [Int.neg_mul] at hk
+    constructor
+    · intro h
+      have := hk.1 (by omega)
+      omega
+    · intro h
+      have := hk.2 (by omega)
+      omega
+
+theorem roundDiv_neg (t M : Int) (hM : 0 < M) (hodd : M % 2 = 1) : roundDiv (-t) M = -roundDiv t M := by
+  have h := (roundDiv_eq_iff t M _ hM hodd).1 rfl
+  rw [roundDiv_eq_iff _ _ _ hM hodd, Int.neg_mul]
+  omega
+
+/-- the TOF bin index computed by `binForDetPair` -/
+def tofOf (g : Geom) (t : Int) : Int := if g.tofMash == 0 then 0 else roundDiv t g.tofMash
+
+theorem tofOf_neg (g : Geom) (htof : g.tofMash = 0 ∨ (0 < g.tofMash ∧ g.tofMash % 2 = 1)) (t : Int) :
+    tofOf g (-t) = -tofOf g t := by
+  unfold tofOf
+  rcases htof with h | ⟨h1, h2⟩
+  · simp [h]
+  · have : g.tofMash ≠ 0 := by omega
+    simp [this, roundDiv_neg _ _ h1 h2]
+
+/-- view mashing: the unmashed views of a mashed view -/
+theorem view_fwd {m k view j : Int} (hk : 0 < k) (hdiv : m % k = 0) (hv0 : 0 ≤ view) (hv1 : view < m / k)
+    (hj0 : 0 ≤ j) (hj1 : j < k) :
+    0 ≤ view * k + j ∧ view * k + j < m ∧ (view * k + j).tdiv k = view := by
+  have hm : k * (m / k) = m := Int.mul_ediv_cancel' (Int.dvd_of_emod_eq_zero hdiv)
+  have h1 : k * (view + 1) ≤ k * (m / k) := Int.mul_le_mul_of_nonneg_left (by omega) (by omega)
+  rw [Int.mul_add, Int.mul_one, Int.mul_comm k view] at h1
+  have h0 : 0 ≤ view * k := Int.mul_nonneg hv0 (by omega)
+  refine ⟨by omega, by omega, ?_⟩
+  rw [Int.tdiv_eq_ediv_of_nonneg (by omega)]
+  apply ediv_eq_of_bounds hk <;> rw [Int.mul_comm k view] <;> omega
+
+theorem view_bwd {m k v : Int} (hk : 0 < k) (hdiv : m % k = 0) (hv0 : 0 ≤ v) (hv1 : v < m) :
+    0 ≤ v.tdiv k ∧ v.tdiv k < m / k ∧ v = v.tdiv k * k + ((v % k).toNat : Int) ∧ (v % k).toNat < k.toNat := by
+  have hm : k * (m / k) = m := Int.mul_ediv_cancel' (Int.dvd_of_emod_eq_zero hdiv)
+  rw [Int.tdiv_eq_ediv_of_nonneg hv0]
+  have a1 := Int.ediv_nonneg hv0 (Int.le_of_lt hk)
+  have a2 : v / k < m / k := Int.ediv_lt_of_lt_mul hk (by rw [Int.mul_comm]; omega)
+  have a3 := Int.emod_nonneg v (Int.ne_of_gt hk)
+  have a4 := Int.emod_lt_of_pos v hk
+  have a5 := Int.mul_ediv_add_emod v k
+  rw [Int.mul_comm] at a5
+  refine ⟨a1, a2, by omega, by omega⟩
+
+
+theorem all_eq (g : Geom) (b : Bin) : g.allDetPairsForBin b =
+  ((List.range g.viewMash.toNat).map fun (k : Nat) => b.view * g.viewMash + (k : Int)).flatMap fun uv =>
+    (g.ringPairsOf b.seg b.ax).flatMap fun rp =>
+      ((List.range ((b.tof * g.tofMash + g.tofMash.tdiv 2) - (b.tof * g.tofMash - g.tofMash.tdiv 2) + 1).toNat).map
+        fun (k : Nat) => (b.tof * g.tofMash - g.tofMash.tdiv 2) + (k : Int)).map fun t =>
+        (⟨(viewTangToDet g.N uv b.tang).1, rp.1, (viewTangToDet g.N uv b.tang).2, rp.2, t⟩ : DetPair) := rfl
+
+theorem mem_all_iff (g : Geom) (b : Bin) (p : DetPair) : p ∈ g.allDetPairsForBin b ↔
+    ∃ j : Nat, j < g.viewMash.toNat ∧ ∃ rp ∈ g.ringPairsOf b.seg b.ax, ∃ i : Nat,
+      i < ((b.tof * g.tofMash + g.tofMash.tdiv 2) - (b.tof * g.tofMash - g.tofMash.tdiv 2) + 1).toNat ∧
+      p = ⟨(viewTangToDet g.N (b.view * g.viewMash + (j : Int)) b.tang).1, rp.1,
+           (viewTangToDet g.N (b.view * g.viewMash + (j : Int)) b.tang).2, rp.2,
+           (b.tof * g.tofMash - g.tofMash.tdiv 2) + (i : Int)⟩ := by
+  rw [all_eq]
+  simp only [List.mem_flatMap, List.mem_map, List.mem_range]
+  constructor
+  · rintro ⟨_, ⟨j, hj, rfl⟩, rp, hrp, _, ⟨i, hi, rfl⟩, rfl⟩
+    exact ⟨j, hj, rp, hrp, i, hi, rfl⟩
+  · rintro ⟨j, hj, rp, hrp, i, hi, rfl⟩
+    exact ⟨_, ⟨j, hj, rfl⟩, rp, hrp, _, ⟨i, hi, rfl⟩, rfl⟩
+
+theorem ring_valid_of_mem (g : Geom) (s a r1 r2 : Int) (h : (r1, r2) ∈ g.ringPairsOf s a) :
+    0 ≤ r1 ∧ r1 < g.R ∧ 0 ≤ r2 ∧ r2 < g.R := by
+  unfold Geom.ringPairsOf at h
+  cases hs : g.seg? s with
+  | none => simp [hs] at h
+  | some sg =>
+    cases ho : sg.axOff g.R with
+    | none => simp [hs, ho] at h
+    | some off =>
+      simp only [hs, ho, Seg.ringPairsOf, List.mem_filterMap] at h
+      obtain ⟨k, _, hk⟩ := h
+      split at hk
+      · simp at hk
+      · simp only [Option.some.injEq, Prod.mk.injEq] at hk
+        omega
+
+theorem ringPairs_nodup (g : Geom) (s a : Int) : (g.ringPairsOf s a).Nodup := by
+  unfold Geom.ringPairsOf
+  split
+  · exact List.nodup_nil
+  · split
+    · exact List.nodup_nil
+    · exact Seg.ringPairsOf_nodup _ _ _ _
+
+theorem bin_eq (g : Geom) (p : DetPair) : g.binForDetPair p =
+  (if (detToViewTang g.N p.d1 p.d2).2.2 then
+    (g.segAxOfRingPair p.r1 p.r2).map fun sa => (⟨sa.1, (detToViewTang g.N p.d1 p.d2).1.tdiv g.viewMash, sa.2,
+       (detToViewTang g.N p.d1 p.d2).2.1, tofOf g p.t⟩ : Bin)
+   else
+    (g.segAxOfRingPair p.r2 p.r1).map fun sa => (⟨sa.1, (detToViewTang g.N p.d1 p.d2).1.tdiv g.viewMash, sa.2,
+       (detToViewTang g.N p.d1 p.d2).2.1, -tofOf g p.t⟩ : Bin)) := rfl
+
+theorem bin_of_keep (g : Geom) (d1 r1 d2 r2 t : Int) (v tp : Int) (h : detToViewTang g.N d1 d2 = (v, tp, true)) :
+    g.binForDetPair ⟨d1, r1, d2, r2, t⟩ =
+      (g.segAxOfRingPair r1 r2).map fun sa => (⟨sa.1, v.tdiv g.viewMash, sa.2, tp, tofOf g t⟩ : Bin) := by
+  rw [bin_eq, h]; rfl
+
+theorem bin_of_swap (g : Geom) (d1 r1 d2 r2 t : Int) (v tp : Int) (h : detToViewTang g.N d1 d2 = (v, tp, false)) :
+    g.binForDetPair ⟨d1, r1, d2, r2, t⟩ =
+      (g.segAxOfRingPair r2 r1).map fun sa => (⟨sa.1, v.tdiv g.viewMash, sa.2, tp, -tofOf g t⟩ : Bin) := by
+  rw [bin_eq, h]; rfl
+
+/-- the TOF indices listed for a bin are mapped back to the bin's TOF index -/
+theorem tofOf_of_range (g : Geom) (htof : g.tofMash = 0 ∨ (0 < g.tofMash ∧ g.tofMash % 2 = 1)) (q : Int)
+    (hz : g.tofMash = 0 → q = 0) (i : Nat)
+    (hi : i < ((q * g.tofMash + g.tofMash.tdiv 2) - (q * g.tofMash - g.tofMash.tdiv 2) + 1).toNat) :
+    tofOf g ((q * g.tofMash - g.tofMash.tdiv 2) + (i : Int)) = q ∧
+    (g.tofMash = 0 → (q * g.tofMash - g.tofMash.tdiv 2) + (i : Int) = 0) := by
+  unfold tofOf
+  rcases htof with h | ⟨h1, h2⟩
+  · have : (0 : Int).tdiv 2 = 0 := by decide
+    simp only [h, this, Int.mul_zero] at hi ⊢
+    simp [hz h]; omega
+  · have : g.tofMash ≠ 0 := by omega
+    refine ⟨?_, fun h => absurd h this⟩
+    simp only [beq_iff_eq, this, if_false]
+    rw [roundDiv_eq_iff _ _ _ h1 h2]
+    have hh : g.tofMash.tdiv 2 = g.tofMash / 2 := Int.tdiv_eq_ediv_of_nonneg (by omega)
+    rw [hh] at hi ⊢
+    omega
+
+
+/-- every TOF index is listed for the TOF bin it is mapped to -/
+theorem tofOf_mem (g : Geom) (htof : g.tofMash = 0 ∨ (0 < g.tofMash ∧ g.tofMash % 2 = 1)) (t : Int)
+    (hz : g.tofMash = 0 → t = 0) :
+    (g.tofMash = 0 → tofOf g t = 0) ∧
+    ∃ i : Nat, i < ((tofOf g t * g.tofMash + g.tofMash.tdiv 2) - (tofOf g t * g.tofMash - g.tofMash.tdiv 2) + 1).toNat ∧
+      t = (tofOf g t * g.tofMash - g.tofMash.tdiv 2) + (i : Int) := by
+  rcases htof with h | ⟨h1, h2⟩
+  · have h0 : (0 : Int).tdiv 2 = 0 := by decide
+    have hq : tofOf g t = 0 := by simp [tofOf, h]
+    refine ⟨fun _ => hq, 0, ?_, ?_⟩
+    · simp [h, h0]
+    · simp [h, h0, hz h]
+  · have hne : g.tofMash ≠ 0 := by omega
+    refine ⟨fun h => absurd h hne, ?_⟩
+    have hq : tofOf g t = roundDiv t g.tofMash := by simp [tofOf, hne]
+    have hb := (roundDiv_eq_iff t g.tofMash _ h1 h2).1 rfl
+    rw [hq]
+    have hh : g.tofMash.tdiv 2 = g.tofMash / 2 := Int.tdiv_eq_ediv_of_nonneg (by omega)
+    rw [hh] at hb ⊢
+    refine ⟨(t - (roundDiv t g.tofMash * g.tofMash - g.tofMash / 2)).toNat, by omega, by omega⟩
+
+/-- **exchange**, in the stronger form "the two orientations get the same bin" -/
+theorem swapped_bin_eq (g : Geom) (m : Int) (c : g.Cfg m) (p : DetPair) (hp : p.valid g) :
+    g.binForDetPair p.swapped = g.binForDetPair p := by
+  obtain ⟨d1, r1, d2, r2, t⟩ := p
+  obtain ⟨a1, a2, a3, a4, a5, -⟩ := hp
+  simp only at a1 a2 a3 a4 a5
+  rw [c.hN] at a2 a4
+  have sw := swap_exchanges m d1 d2 c.hm ⟨a1, a2⟩ ⟨a3, a4⟩ a5
+  rw [← c.hN] at sw
+  show g.binForDetPair ⟨d2, r2, d1, r1, -t⟩ = _
+  rcases hx : detToViewTang g.N d1 d2 with ⟨v, tp, keep⟩
+  rw [hx] at sw
+  cases keep
+  · rw [bin_of_swap g _ _ _ _ _ _ _ hx, bin_of_keep g _ _ _ _ _ _ _ sw, tofOf_neg g c.htof]
+  · rw [bin_of_keep g _ _ _ _ _ _ _ hx, bin_of_swap g _ _ _ _ _ _ _ sw, tofOf_neg g c.htof, Int.neg_neg]
+
+theorem swapped_valid (g : Geom) (p : DetPair) (hp : p.valid g) : p.swapped.valid g := by
+  obtain ⟨a1, a2, a3, a4, a5, a6, a7, a8, a9, a10⟩ := hp
+  refine ⟨a3, a4, a1, a2, fun h => a5 h.symm, a8, a9, a6, a7, fun h => ?_⟩
+  show -p.t = 0
+  rw [a10 h]; rfl
+
+theorem complete_keep (g : Geom) (m : Int) (c : g.Cfg m) (b : Bin) (d1 r1 d2 r2 t : Int)
+    (hp : DetPair.valid g ⟨d1, r1, d2, r2, t⟩) (v tp : Int) (hx : detToViewTang g.N d1 d2 = (v, tp, true))
+    (h : g.binForDetPair ⟨d1, r1, d2, r2, t⟩ = some b) :
+    g.binInRange m b ∧ (⟨d1, r1, d2, r2, t⟩ : DetPair) ∈ g.allDetPairsForBin b := by
+  obtain ⟨a1, a2, a3, a4, a5, a6, a7, a8, a9, a10⟩ := hp
+  simp only at a1 a2 a3 a4 a5 a6 a7 a8 a9 a10
+  obtain ⟨hk, hdiv⟩ := c.hmash
+  have dv := det_vt_roundtrip m d1 d2 c.hm ⟨a1, by rw [← c.hN]; exact a2⟩ ⟨a3, by rw [← c.hN]; exact a4⟩ a5
+  rw [← c.hN, hx] at dv
+  simp only [if_true] at dv
+  obtain ⟨v0, v1, t0, t1, hvt⟩ := dv
+  rw [bin_of_keep g _ _ _ _ _ _ _ hx, Option.map_eq_some_iff] at h
+  obtain ⟨⟨s, a⟩, hs, rfl⟩ := h
+  have vb := view_bwd hk hdiv v0 v1
+  have tm := tofOf_mem g c.htof t a10
+  have hrp := (g.ringpair_partition c.wf r1 r2 ⟨a6, a7⟩ ⟨a8, a9⟩ s a).1 hs
+  refine ⟨⟨vb.1, vb.2.1, t0, t1, tm.1⟩, ?_⟩
+  rw [mem_all_iff]
+  obtain ⟨i, hi, hti⟩ := tm.2
+  refine ⟨_, vb.2.2.2, (r1, r2), hrp, i, hi, ?_⟩
+  dsimp only
+  rw [← vb.2.2.1, hvt, ← hti]
+
+
+theorem length_flatMap_const {α β : Type} (l : List α) (f : α → List β) (n : Nat)
+    (h : ∀ a ∈ l, (f a).length = n) : (l.flatMap f).length = l.length * n := by
+  induction l with
+  | nil => simp
+  | cons x xs ih =>
+    rw [List.flatMap_cons, List.length_append, h x (List.mem_cons_self ..),
+      ih (fun a ha => h a (List.mem_cons_of_mem _ ha)), List.length_cons, Nat.succ_mul, Nat.add_comm]
+
+theorem nodup_flatMap_of_inj {α β : Type} (l : List α) (f : α → List β) (hl : l.Nodup)
+    (hf : ∀ a ∈ l, (f a).Nodup)
+    (hd : ∀ a ∈ l, ∀ a' ∈ l, ∀ x, x ∈ f a → x ∈ f a' → a = a') : (l.flatMap f).Nodup := by
+  rw [List.nodup_flatMap]
+  refine ⟨hf, ?_⟩
+  refine List.Pairwise.imp_of_mem (R := (· ≠ ·)) ?_ hl
+  intro a a' ha ha' hne
+  show List.Disjoint (f a) (f a')
+  intro x hx hx'
+  exact hne (hd a ha a' ha' x hx hx')
+
+theorem nodup_offsets (c : Int) (n : Nat) : ((List.range n).map fun (k : Nat) => c + (k : Int)).Nodup := by
+  refine List.Nodup.map ?_ List.nodup_range
+  intro a b h
+  simp only at h
+  omega
+
+
+theorem seg?_mem (g : Geom) (s : Int) (sg : Seg) (h : g.seg? s = some sg) : sg ∈ g.segs := by
+  unfold Geom.seg? at h
+  split at h
+  · exact absurd h (by simp)
+  · exact List.mem_of_getElem? h
+
+set_option linter.unusedTactic false in
+set_option linter.unreachableTactic false in
+/-- the only fact read off `WFb` directly: single-ring-difference segments are exact -/
+theorem wfb_exact (g : Geom) (h : g.WFb = true) (sg : Seg) (hs : sg ∈ g.segs) (off : Int)
+    (ho : sg.axOff g.R = some off) : sg.Exact off := by
+  unfold Geom.WFb at h
+  simp only [Bool.and_eq_true, List.all_eq_true] at h
+  intro heq
+  first
+  | (have h3 := h.2 sg hs
+     rw [ho] at h3
+     simp only [Bool.and_eq_true, Bool.or_eq_true, bne_iff_ne, beq_iff_eq] at h3
+     exact h3.1.resolve_left (fun hne => hne heq))
+  | (have h3 := h.1.2 sg hs
+     rw [ho] at h3
+     simp only [Bool.and_eq_true, Bool.or_eq_true, bne_iff_ne, beq_iff_eq] at h3
+     exact h3.1.resolve_left (fun hne => hne heq))
+  | (have h3 := h.1.1.2 sg hs
+     rw [ho] at h3
+     simp only [Bool.and_eq_true, Bool.or_eq_true, bne_iff_ne, beq_iff_eq] at h3
+     exact h3.1.resolve_left (fun hne => hne heq))
+  | (have h3 := h.1.1.1.2 sg hs
+     rw [ho] at h3
+     simp only [Bool.and_eq_true, Bool.or_eq_true, bne_iff_ne, beq_iff_eq] at h3
+     exact h3.1.resolve_left (fun hne => hne heq))
+
+/-- a single-ring-difference segment lists the ring pair computed by `detPairForBin` -/
+theorem ring_mem_single (R : Int) (sg : Seg) (off a : Int) (heq : sg.minRD = sg.maxRD) (hex : sg.Exact off)
+    (hr : 0 ≤ (sg.ringSum off a - sg.maxRD).tdiv 2 ∧ (sg.ringSum off a - sg.maxRD).tdiv 2 < R ∧
+          0 ≤ (sg.ringSum off a + sg.maxRD).tdiv 2 ∧ (sg.ringSum off a + sg.maxRD).tdiv 2 < R) :
+    ((sg.ringSum off a - sg.maxRD).tdiv 2, (sg.ringSum off a + sg.maxRD).tdiv 2) ∈ sg.ringPairsOf R off a := by
+  have hinc : sg.inc = 1 := by simp [Seg.inc, heq]
+  have hsum : sg.ringSum off a = 2 * a + off := by simp [Seg.ringSum, hinc]
+  have hpar : (sg.minRD + sg.ringSum off a).tmod 2 = 0 := by
+    have := hex heq
+    obtain ⟨e, he⟩ : ∃ e, sg.minRD + sg.ringSum off a = 2 * e :=
+      ⟨(sg.minRD + sg.ringSum off a) / 2, by omega⟩
+    rw [he, Int.mul_tmod_right]
+  unfold Seg.ringPairsOf
+  simp only [hpar, Int.add_zero, List.mem_filterMap, List.mem_range]
+  refine ⟨0, ?_, ?_⟩
+  · rw [if_neg (by omega)]; omega
+  · have e0 : sg.minRD + 2 * ((0 : Nat) : Int) = sg.maxRD := by omega
+    rw [e0, if_neg (by omega)]
+
+/-- TOF index of the representative computed by `detPairForBin` (TOF mashing factor 0 or 1) -/
+theorem tofOf_abs (g : Geom) (htof : g.tofMash = 0 ∨ (0 < g.tofMash ∧ g.tofMash % 2 = 1)) (ht : g.tofMash ≤ 1)
+    (q : Int) (hz : g.tofMash = 0 → q = 0) : tofOf g ((q.natAbs : Int) * g.tofMash) = (q.natAbs : Int) := by
+  unfold tofOf
+  rcases htof with h | ⟨h1, h2⟩
+  · simp [h, hz h]
+  · have hM : g.tofMash = 1 := by omega
+    have h0 : (1 : Int).tdiv 2 = 0 := by decide
+    rw [hM]
+    simp only [show ((1 : Int) == 0) = false from rfl, Bool.false_eq_true, if_false]
+    rw [roundDiv_eq_iff _ _ _ (by omega) (by omega), h0]
+    omega
+
+
+/-! ## the five properties -/
+
 /-- **soundness of a bin's list**: every pair the bin reports is assigned to that bin -/
 theorem all_sound (g : Geom) (m : Int) (c : g.Cfg m) (b : Bin) (hb : g.binInRange m b) (p : DetPair)
     (hp : p ∈ g.allDetPairsForBin b) : g.binForDetPair p = some b ∧ p.valid g := by
-  sorry
+  obtain ⟨j, hj, rp, hrp, i, hi, rfl⟩ := (mem_all_iff g b p).1 hp
+  obtain ⟨hk, hdiv⟩ := c.hmash
+  obtain ⟨hv0, hv1, ht0, ht1, htz⟩ := hb
+  have vw := view_fwd (j := (j : Int)) hk hdiv hv0 hv1 (by omega) (by omega)
+  have rt := vt_det_roundtrip m _ b.tang c.hm ⟨vw.1, vw.2.1⟩ ⟨ht0, ht1⟩
+  have rg := viewTangToDet_range m _ b.tang c.hm ⟨vw.1, vw.2.1⟩ ⟨ht0, ht1⟩
+  rw [← c.hN] at rt rg
+  have rv := ring_valid_of_mem g _ _ rp.1 rp.2 hrp
+  have sg := (g.ringpair_partition c.wf rp.1 rp.2 ⟨rv.1, rv.2.1⟩ ⟨rv.2.2.1, rv.2.2.2⟩ b.seg b.ax).2 hrp
+  have tf := tofOf_of_range g c.htof b.tof htz i hi
+  constructor
+  · rw [bin_of_keep g _ _ _ _ _ _ _ rt]
+    simp only [sg, Option.map_some, vw.2.2, tf.1]
+  · exact ⟨rg.1, rg.2.1, rg.2.2.1, rg.2.2.2.1, rg.2.2.2.2, rv.1, rv.2.1, rv.2.2.1, rv.2.2.2, tf.2⟩
 
 /-- **completeness**: every pair assigned to the bin is reported by it, in one of its two orientations -/
 theorem all_complete (g : Geom) (m : Int) (c : g.Cfg m) (b : Bin) (p : DetPair) (hp : p.valid g)
     (h : g.binForDetPair p = some b) :
     g.binInRange m b ∧ (p ∈ g.allDetPairsForBin b ∨ p.swapped ∈ g.allDetPairsForBin b) := by
-  sorry
+  have hs := swapped_bin_eq g m c p hp
+  have hpv := swapped_valid g p hp
+  obtain ⟨d1, r1, d2, r2, t⟩ := p
+  rcases hx : detToViewTang g.N d1 d2 with ⟨v, tp, keep⟩
+  cases keep
+  · have sw := swap_exchanges m d1 d2 c.hm ⟨hp.1, by rw [← c.hN]; exact hp.2.1⟩
+      ⟨hp.2.2.1, by rw [← c.hN]; exact hp.2.2.2.1⟩ hp.2.2.2.2.1
+    rw [← c.hN, hx] at sw
+    have := complete_keep g m c b d2 r2 d1 r1 (-t) hpv v tp sw (hs.trans h)
+    exact ⟨this.1, Or.inr this.2⟩
+  · have := complete_keep g m c b d1 r1 d2 r2 t hp v tp hx h
+    exact ⟨this.1, Or.inl this.2⟩
 
 /-- **count**: the list has no duplicates and the reported number is its length -/
 theorem all_nodup_count (g : Geom) (m : Int) (c : g.Cfg m) (b : Bin) (hb : g.binInRange m b) :
     (g.allDetPairsForBin b).Nodup ∧ (g.allDetPairsForBin b).length = g.numDetPairsForBin b := by
-  sorry
+  obtain ⟨hk, hdiv⟩ := c.hmash
+  obtain ⟨hv0, hv1, ht0, ht1, htz⟩ := hb
+  rw [all_eq]
+  constructor
+  · apply nodup_flatMap_of_inj _ _ (nodup_offsets _ _)
+    · intro uv _
+      apply nodup_flatMap_of_inj _ _ (ringPairs_nodup g _ _)
+      · intro rp _
+        refine List.Nodup.map ?_ (nodup_offsets _ _)
+        intro t t' h
+        simp only [DetPair.mk.injEq] at h
+        exact h.2.2.2.2
+      · intro rp _ rp' _ x hx hx'
+        simp only [List.mem_map] at hx hx'
+        obtain ⟨t, _, rfl⟩ := hx
+        obtain ⟨t', _, h⟩ := hx'
+        simp only [DetPair.mk.injEq] at h
+        exact Prod.ext h.2.1.symm h.2.2.2.1.symm
+    · intro uv huv uv' huv' x hx hx'
+      simp only [List.mem_map, List.mem_range] at huv huv'
+      obtain ⟨j, hj, rfl⟩ := huv
+      obtain ⟨j', hj', rfl⟩ := huv'
+      simp only [List.mem_flatMap, List.mem_map] at hx hx'
+      obtain ⟨rp, _, t, _, rfl⟩ := hx
+      obtain ⟨rp', _, t', _, h⟩ := hx'
+      simp only [DetPair.mk.injEq] at h
+      have vw := view_fwd (j := (j : Int)) hk hdiv hv0 hv1 (by omega) (by omega)
+      have vw' := view_fwd (j := (j' : Int)) hk hdiv hv0 hv1 (by omega) (by omega)
+      have rt := vt_det_roundtrip m _ b.tang c.hm ⟨vw.1, vw.2.1⟩ ⟨ht0, ht1⟩
+      have rt' := vt_det_roundtrip m _ b.tang c.hm ⟨vw'.1, vw'.2.1⟩ ⟨ht0, ht1⟩
+      rw [← c.hN] at rt rt'
+      rw [h.1, h.2.2.1, rt] at rt'
+      exact (Prod.mk.inj rt').1
+  · rw [length_flatMap_const _ _ ((g.ringPairsOf b.seg b.ax).length * (max 1 g.tofMash).toNat)]
+    · simp only [List.length_map, List.length_range, Geom.numDetPairsForBin]
+      rw [Nat.mul_comm, Nat.mul_right_comm]
+    · intro uv _
+      rw [length_flatMap_const _ _ (max 1 g.tofMash).toNat]
+      intro rp _
+      simp only [List.length_map, List.length_range]
+      rcases c.htof with h | ⟨h1, h2⟩
+      · have h0 : (0 : Int).tdiv 2 = 0 := by decide
+        rw [h, h0]; omega
+      · have hh : g.tofMash.tdiv 2 = g.tofMash / 2 := Int.tdiv_eq_ediv_of_nonneg (by omega)
+        rw [hh]
+        omega
 
 /-- **exchange**: swapping the detectors gives the same spatial bin with the TOF index negated -/
 theorem swapped_same_bin (g : Geom) (m : Int) (c : g.Cfg m) (p : DetPair) (hp : p.valid g) (b : Bin)
-    (h : g.binForDetPair p = some b) : g.binForDetPair p.swapped = some b := by
-  sorry
+    (h : g.binForDetPair p = some b) : g.binForDetPair p.swapped = some b :=
+  (swapped_bin_eq g m c p hp).trans h
 
 /-- **uncompressed data**: bin → pair → bin is the identity (no view mashing, TOF mashing ≤ 1) -/
 theorem uncompressed_inverse (g : Geom) (m : Int) (c : g.Cfg m) (h1 : g.viewMash = 1) (ht : g.tofMash ≤ 1)
     (b : Bin) (hb : g.binInRange m b) (p : DetPair) (h : g.detPairForBin b = some p)
     (hr : 0 ≤ p.r1 ∧ p.r1 < g.R ∧ 0 ≤ p.r2 ∧ p.r2 < g.R) : g.binForDetPair p = some b := by
-  sorry
+  obtain ⟨hv0, hv1, ht0, ht1, htz⟩ := hb
+  rw [h1, Int.ediv_one] at hv1
+  have rt := vt_det_roundtrip m b.view b.tang c.hm ⟨hv0, hv1⟩ ⟨ht0, ht1⟩
+  have rg := viewTangToDet_range m b.view b.tang c.hm ⟨hv0, hv1⟩ ⟨ht0, ht1⟩
+  have sw := swap_exchanges m _ _ c.hm ⟨rg.1, rg.2.1⟩ ⟨rg.2.2.1, rg.2.2.2.1⟩ rg.2.2.2.2
+  rw [rt] at sw
+  rw [← c.hN] at rt sw
+  unfold Geom.detPairForBin at h
+  cases hs : g.seg? b.seg with
+  | none => rw [hs] at h; simp at h
+  | some sg =>
+    rw [hs] at h
+    simp only [Option.bind_eq_bind, Option.bind_some] at h
+    split at h
+    · simp at h
+    · rename_i hne
+      have heq : sg.minRD = sg.maxRD := by simpa using hne
+      cases ho : sg.axOff g.R with
+      | none => rw [ho] at h; simp at h
+      | some off =>
+        rw [ho] at h
+        simp only [Option.bind_some] at h
+        have hex := wfb_exact g c.wf sg (seg?_mem g _ _ hs) off ho
+        have hgr : g.ringPairsOf b.seg b.ax = sg.ringPairsOf g.R off b.ax := by
+          simp only [Geom.ringPairsOf, hs, ho]
+        split at h
+        · rename_i htof
+          simp only [Option.pure_def, Option.some.injEq] at h
+          subst h
+          simp only at hr
+          have hmem := ring_mem_single g.R sg off b.ax heq hex hr
+          rw [← hgr] at hmem
+          have hsa := (g.ringpair_partition c.wf _ _ ⟨hr.1, hr.2.1⟩ ⟨hr.2.2.1, hr.2.2.2⟩ b.seg b.ax).2 hmem
+          rw [bin_of_keep g _ _ _ _ _ _ _ rt, hsa, h1, Int.tdiv_one]
+          rw [tofOf_abs g c.htof ht b.tof htz, show (b.tof.natAbs : Int) = b.tof by omega]
+          rfl
+        · rename_i htof
+          simp only [Option.pure_def, Option.some.injEq] at h
+          subst h
+          simp only at hr
+          have hmem := ring_mem_single g.R sg off b.ax heq hex ⟨hr.2.2.1, hr.2.2.2, hr.1, hr.2.1⟩
+          rw [← hgr] at hmem
+          have hsa := (g.ringpair_partition c.wf _ _ ⟨hr.2.2.1, hr.2.2.2⟩ ⟨hr.1, hr.2.1⟩ b.seg b.ax).2 hmem
+          have sw' : detToViewTang g.N (viewTangToDet g.N b.view b.tang).snd (viewTangToDet g.N b.view b.tang).fst
+              = (b.view, b.tang, false) := sw
+          rw [bin_of_swap g _ _ _ _ _ _ _ sw', hsa, h1, Int.tdiv_one]
+          rw [tofOf_abs g c.htof ht b.tof htz, show -(b.tof.natAbs : Int) = b.tof by omega]
+          rfl
 
 end StirVerif.C01
